@@ -40,6 +40,9 @@ MUTANTS = [
     M("zero-before-read", MUT, "        f.seek(old_extra_lease_offset)\n        leases_size = 4 + num_extra_leases * self.LEASE_SIZE\n",
       "        leases_size = 4 + num_extra_leases * self.LEASE_SIZE\n" + CCS_ZERO + "        f.seek(old_extra_lease_offset)\n", "C23.2"),
     M("new-lease-offset-not-recorded", MUT, "        self._write_extra_lease_offset(f, new_extra_lease_offset)\n", "", "C23.2"),
+    M("fit-assert-strict", MUT, "            assert self.DATA_OFFSET+offset+length <= extra_lease_offset\n",
+      "            assert self.DATA_OFFSET+offset+length < extra_lease_offset\n", "C23.2",
+      note="after growth the data ends exactly at the extra-lease offset: a strict assert fails every growing write"),
     # ---- C23.3 clipped reads
     M("clip-without-max", MUT, "            length = max(0, data_length-offset)\n", "            length = data_length-offset\n", "C23.3"),
     M("clip-condition-ignores-length", MUT, "        if offset+length > data_length:\n            # reads beyond",
@@ -49,6 +52,8 @@ MUTANTS = [
     M("empty-read-threshold", MUT, "        if length == 0:\n            return b\"\"\n", "        if length <= 1:\n            return b\"\"\n", "C23.3"),
     M("readv-swaps-offset-length", MUT, "datav.append(self._read_share_data(f, offset, length))",
       "datav.append(self._read_share_data(f, length, offset))", "C23.3"),
+    M("read-precondition-strict", MUT, "        precondition(offset+length <= data_length)\n", "        precondition(offset+length < data_length)\n", "C23.3"),
+    M("readv-returns-nothing", MUT, "        return datav\n\n    def get_length", "        return None\n\n    def get_length", "C23.3"),
     # ---- C23.4 writev
     M("truncate-also-extends", MUT, "                if new_length < cur_length:", "                if new_length != cur_length:", "C23.4"),
     M("truncate-dropped", MUT, "                    self._write_data_length(f, new_length)\n", "                    pass\n", "C23.4"),
@@ -81,6 +86,9 @@ MUTANTS = [
       "        extra_lease_offset,\n        0,\n", "C23.6"),
     M("fresh-container-lease-offset", SCH, "_EXTRA_LEASE_OFFSET = _HEADER_SIZE + 4 * LeaseInfo().mutable_size()",
       "_EXTRA_LEASE_OFFSET = _HEADER_SIZE + 3 * LeaseInfo().mutable_size()", "C23.6"),
+    M("five-blank-lease-slots", SCH, "    blank_leases = b\"\\x00\" * LeaseInfo().mutable_size() * 4\n",
+      "    blank_leases = b\"\\x00\" * LeaseInfo().mutable_size() * 5\n", "C23.6"),
+    M("fresh-container-one-extra-lease", SCH, "    extra_lease_count = struct.pack(\">L\", 0)\n", "    extra_lease_count = struct.pack(\">L\", 1)\n", "C23.6"),
     # ---- C23.7 test vectors
     M("missing-share-always-matches", MUT, "            data = b\"\"\n", "            data = specimen\n", "C23.7"),
     M("failing-vector-not-recorded", MUT, "                    test_good = False\n                    break\n",
@@ -98,6 +106,12 @@ MUTANTS = [
       edits=[(MUT, "        f.write(extra_lease_data)\n", "        f.write(blob)\n")]),
     M("benign-zero-test-reordered", SRV, "            if new_length == 0:\n                if sharenum in shares:",
       "            if 0 == new_length:\n                if sharenum in shares:", None),
+    M("benign-size-validation-pass-first", SRV, "        remaining_shares = {}\n\n        for sharenum in test_and_write_vectors:",
+      "        remaining_shares = {}\n\n        for sharenum in test_and_write_vectors:\n"
+      "            for (offset, data) in test_and_write_vectors[sharenum][1]:\n"
+      "                if offset + len(data) > MutableShareFile.MAX_SIZE:\n"
+      "                    raise ValueError(\"share too large\")\n\n        for sharenum in test_and_write_vectors:", None,
+      note="a separate validation loop over the same dict (the repair of the C24.8 finding) is not the apply loop"),
     # ---- vanished anchor
     M("vanish-write-share-data", MUT, "    def _write_share_data(self, f, offset, data):", "    def _write_share_dataX(self, f, offset, data):",
       "ANALYSIS-ERROR"),
